@@ -23,7 +23,7 @@ Record cfg := mkCfg {
 
 (* ------------------------------------------------------------------ parsed requests *)
 Inductive method := MOptions | MDescribe | MAnnounce | MSetup | MPlay | MRecord | MPause
-                  | MTeardown | MGetParameter | MSetParameter | MOther.
+                  | MTeardown | MGetParam | MSetParam | MOther.
 
 Inductive proto := PUDP | PTCP.                 (* headers.TransportProtocol *)
 Inductive sproto := SPUDP | SPMcast | SPTCP.    (* gortsplib.Protocol *)
@@ -651,7 +651,7 @@ Definition sess_inner (g : cfg) (s : server) (c : conn) (ss : session) (r : req)
   then Some (s, ss, 400, RErr)                                             (* SessionLinkedToOtherConn *)
   else
   if match r_method r with
-     | MAnnounce | MPause | MGetParameter | MSetParameter | MPlay | MRecord | MSetup => negb (r_url r)
+     | MAnnounce | MPause | MGetParam | MSetParam | MPlay | MRecord | MSetup => negb (r_url r)
      | _ => false
      end then None else                                                    (* getPathAndQuery(req.URL) *)
   match r_method r with
@@ -662,8 +662,8 @@ Definition sess_inner (g : cfg) (s : server) (c : conn) (ss : session) (r : req)
   | MRecord => sess_record g s c ss r
   | MPause => sess_pause g s ss r
   | MTeardown => sess_teardown s ss
-  | MGetParameter => Some (s, ss, 200, RNone)
-  | MSetParameter => if h_setparam g then Some (s, ss, 200, RNone) else Some (s, ss, 501, RNone)
+  | MGetParam => Some (s, ss, 200, RNone)
+  | MSetParam => if h_setparam g then Some (s, ss, 200, RNone) else Some (s, ss, 501, RNone)
   | _ => Some (s, ss, 501, RNone)
   end.
 
@@ -734,8 +734,8 @@ Definition conn_request (g : cfg) (s : server) (c : conn) (r : req) : cres :=
   | MRecord => if has_sess && h_record g then in_session g s c r false else plain 501
   | MPause => if has_sess && h_pause g then in_session g s c r false else plain 501
   | MTeardown => if has_sess then in_session g s c r false else plain 501
-  | MGetParameter => if has_sess then in_session g s c r false else if h_getparam g then plain 200 else plain 501
-  | MSetParameter => if has_sess then in_session g s c r false else if h_setparam g then plain 200 else plain 501
+  | MGetParam => if has_sess then in_session g s c r false else if h_getparam g then plain 200 else plain 501
+  | MSetParam => if has_sess then in_session g s c r false else if h_setparam g then plain 200 else plain 501
   | MOther => plain 501
   end.
 
@@ -822,7 +822,7 @@ Fixpoint run_events (g : cfg) (s : server) (evs : list sevent) : option (server 
 Definition dec_method (n : N) : method :=
   match n with
   | 0 => MOptions | 1 => MDescribe | 2 => MAnnounce | 3 => MSetup | 4 => MPlay | 5 => MRecord
-  | 6 => MPause | 7 => MTeardown | 8 => MGetParameter | 9 => MSetParameter | _ => MOther
+  | 6 => MPause | 7 => MTeardown | 8 => MGetParam | 9 => MSetParam | _ => MOther
   end.
 
 (* option N as  0 | 1 x *)
